@@ -114,6 +114,7 @@ func lifeScenario(e *Env, dir string, i int, warm bool) {
 	srv := rpc.NewServer()
 	srv.SetLogLevel(rpc.OffLogLevel)
 	srv.SetPipelining(i%3 == 1)
+	srv.SetDirectIO(i%4 == 2)
 	svc := &SlowSvc{gate: make(chan struct{})}
 	srv.RegisterName("S", svc)
 	listenRet := make(chan error, 1)
@@ -133,7 +134,7 @@ func lifeScenario(e *Env, dir string, i int, warm bool) {
 	}
 	usage := i % 6
 	closeOrder := (i / 6) % 4
-	desc := map[string]interface{}{"usage": usage, "close_order": closeOrder, "pipelining": i%3 == 1, "seed": e.Seed}
+	desc := map[string]interface{}{"usage": usage, "close_order": closeOrder, "pipelining": i%3 == 1, "server_directIO": i%4 == 2, "seed": e.Seed}
 	fail := func(sig, what string) {
 		if !warm {
 			e.fail(sig, what, desc)
@@ -164,6 +165,16 @@ func lifeScenario(e *Env, dir string, i int, warm bool) {
 		if err != nil {
 			fail("C20-setup", "NewStream: "+err.Error())
 		} else {
+			// a few messages travel first (the handler echoes them); then a reader blocks
+			for k := 0; k < 2; k++ {
+				m := []byte{byte(k), 7}
+				stream.WriteMessage(&m)
+				var back []byte
+				if _, err, ok := readWithTimeout(stream, 3*time.Second); !ok || err != nil {
+					_ = back
+					fail("C09-message-lost", fmt.Sprintf("stream echo did not arrive (%v)", err))
+				}
+			}
 			wg.Add(1)
 			go func() {
 				defer wg.Done()
@@ -185,6 +196,7 @@ func lifeScenario(e *Env, dir string, i int, warm bool) {
 			cl.Call("S.Echo", &a, &b)
 		}
 		cl.Fallback(time.Hour)
+		cl.Fallback(30 * time.Minute) // several pauses pending at Close: all their timers' goroutines end with it
 		for k := 0; k < 2; k++ {
 			wg.Add(1)
 			go func() {
@@ -330,6 +342,11 @@ func lifeOpenThenGone(e *Env) {
 			cend.WriteMessage(refPBReq(hdr{Seq: uint64(100 + i), Upgrade: []byte{0xE0}}))
 		}
 		cend.WriteMessage(refPBReq(hdr{Seq: 1, Upgrade: []byte{0xC8}, Method: []byte("G.Chat")}))
+		if k%5 >= 3 { // and stream messages right behind it
+			for j := 0; j < k%5-2; j++ {
+				cend.WriteMessage(refPBReq(hdr{Seq: 1, Upgrade: []byte{0xD0}, Body: []byte{byte(j), 1, 2}}))
+			}
+		}
 		cend.Close()
 		select {
 		case <-done:
